@@ -60,6 +60,11 @@ type c19wVerdict struct {
 	MustRelease bool     `json:"mustRelease"`
 	MustFinish  bool     `json:"mustFinish"`
 	NoDataPreds []string `json:"noDataPreds"`
+	CbCopiesOut int      `json:"cbCopiesOut"` // callback-copy ledger of one node, output timing
+	CbHandedOut int      `json:"cbHandedOut"`
+	CbCopiesIn  int      `json:"cbCopiesIn"`
+	CbHandedIn  int      `json:"cbHandedIn"`
+	CbLeaked    int      `json:"cbLeaked"`
 }
 
 func c19wOwnData(n *compose.WorkflowNode, data string) {
@@ -212,7 +217,9 @@ func c19wOne(ctx *vh.Ctx, c *c19wCase) error {
 			var sr *schema.StreamReader[gcase.M]
 			var ropts []compose.Option
 			if len(c.Handlers) > 0 {
-				ropts = append(ropts, compose.WithCallbacks(c19Handlers(c.Handlers)...))
+				hopts, hdone := c19RunOpts(c.Handlers)
+				defer hdone()
+				ropts = append(ropts, hopts...)
 			}
 			if c.Paradigm == "transform" {
 				sr, runErr = r.Transform(bg, schema.StreamReaderFromArray(gcase.ChunkMap(c.InChunks, x)), ropts...)
@@ -258,6 +265,9 @@ func c19wOne(ctx *vh.Ctx, c *c19wCase) error {
 	for _, h := range c.Handlers {
 		ctx.Res.Dist("wf:handler=" + h)
 	}
+	if c19ListedTwice(c.Handlers) {
+		ctx.Res.Dist("wf:handler-listed-twice")
+	}
 	ctx.Res.Dist(fmt.Sprintf("wf:consume=%d", c.Consume))
 	ctx.Res.Dist(fmt.Sprintf("wf:chunks=%d", c.Chunks))
 	if !finished {
@@ -286,11 +296,7 @@ func c19wOne(ctx *vh.Ctx, c *c19wCase) error {
 			ks = append(ks, k)
 		}
 		sort.Strings(ks)
-		sfx := ""
-		if len(c.Handlers) > 0 {
-			sfx = ":callbacks"
-		}
-		return strings.Join(ks, "+") + ":" + c.Cond + sfx
+		return strings.Join(ks, "+") + ":" + c.Cond + c19CbSfx(c.Handlers)
 	}
 	if !tr.settled(4 * time.Second) {
 		if !model.MustRelease {
@@ -390,8 +396,8 @@ func c19wCorpus() []*c19wCase {
 	for _, d := range []string{"none", "static"} {
 		for _, cond := range []string{"prefix", "multi-prefix"} {
 			out = append(out, &c19wCase{Kind: "workflow", Chunks: 3,
-				Succ:   []c19wSucc{{Key: "n0", Kind: "branchend", Data: d}, {Key: "n1", Kind: "branchend"}},
-				Cond:   cond, Select: []string{"n0"}, Paradigm: "stream", Consume: -1})
+				Succ: []c19wSucc{{Key: "n0", Kind: "branchend", Data: d}, {Key: "n1", Kind: "branchend"}},
+				Cond: cond, Select: []string{"n0"}, Paradigm: "stream", Consume: -1})
 		}
 	}
 	return out
